@@ -1,4 +1,4 @@
-//@ unit u13_events props C18
+//@ unit u13_events props C18 also C13 C07
 // Unit U13: "every committed change is announced", the part that is sequencing inside one function.
 //  (a) authorisation actor (src/database/authorisation_service.rs, process_message): once the writer has acknowledged a room
 //      mutation or a received room definition, every room of that change is installed in the in-memory authorisations and a
@@ -73,6 +73,11 @@ pub mod mpsc {
 pub struct RoomMutationWriteQuery { pub room_list: HashSet<Uid>, pub mutation_query: MutationQuery, pub reply: Sender<Result<MutationQuery>> }
 pub struct RoomMutationStreamWriteQuery { pub room_list: HashSet<Uid>, pub mutation_query: MutationQuery, pub reply: mpsc::Sender<Result<MutationQuery>> }
 pub struct RoomNode { x: u8 }
+impl RoomNode {
+    /// RoomNode::parse (under contract in unit u3_loaders): here any room, or an error
+    #[verifier::external_body]
+    pub fn parse(&self) -> (r: Result<Room>) { unimplemented!() }
+}
 pub struct RoomNodeWriteQuery { pub room: RoomNode, pub reply: Sender<Result<()>> }
 pub struct AuthorisationService { x: u8 }
 
@@ -162,6 +167,24 @@ pub open spec fn installed(t: Map<Uid, Room>, rooms: Seq<Room>) -> bool {
 //@ insert before-stmt "let _ = query.reply.send(Ok(()));"
                             // [received_room_announced_before_the_answer] a room definition received from a peer and written is installed and announced before the synchronisation goes on
                             assert(announced =~= seq![room0] && auth.rooms@.contains_key(room0.id) && auth.rooms@[room0.id] == room0);
+//@ end
+
+// the whole RoomNodeWrite arm (`=> match res { .. }`): what happens when the write of a received room definition FAILED
+/// the reply channel of the room write was answered with this result
+pub uninterp spec fn room_write_answered(ok: bool) -> bool;
+pub uninterp spec fn room_event_notified() -> bool;
+//@ extract src/database/authorisation_service.rs :: impl AuthorisationService / fn process_message as AuthorisationService::lifted_room_node_write_arm
+//@ lift "AuthorisationMessage::RoomNodeWrite(res, query) =>" :: async fn lifted_room_node_write_arm(res: Result<()>, query: RoomNodeWriteQuery, auth: &mut RoomAuthorisations, event_service: &EventService)
+//@ insert body-start
+            let ghost mut notified: bool = false;
+            let ghost mut answered_ok: bool = false;
+//@ insert-each after-stmt ".notify(EventServiceMessage::RoomModified(room))" optional
+                            proof { notified = true; }
+//@ insert-each before-stmt "query.reply.send(Ok(()))" optional
+                            proof { answered_ok = true; }
+//@ insert body-end
+            // [failed_room_write_installs_nothing]{C13,C07,C18} a room definition whose write FAILED (the batch was rolled back: nothing is stored) is not installed in memory, is not announced, and is not answered Ok: a write reported failed has no visible effect
+            assert(res is Err ==> auth.rooms@ == old(auth).rooms@ && !notified && !answered_ok);
 //@ end
 
 // ------------------------------------------------------------------ (c) the content of the data-changed event
